@@ -72,6 +72,8 @@ type Dir struct {
 	Written, Delivered      int64
 	Observers               []func(frame []byte) // passive, see whole frames in write order
 	obuf                    []byte
+	DeliveredObservers      []func(frame []byte) // see whole frames once fully delivered to the reader
+	dbuf                    []byte
 }
 
 // Conn is a simulated TCP connection.
@@ -82,6 +84,7 @@ type Conn struct {
 	Client   *End
 	Server   *End
 	OpenedAt time.Duration
+	Tag      string // free for scenarios
 }
 
 // End is one endpoint of a Conn; it implements net.Conn.
@@ -703,6 +706,15 @@ func (n *Net) deliver(d *Dir) int {
 		}
 	}
 	d.Delivered += int64(moved)
+	if len(d.DeliveredObservers) > 0 && moved > 0 {
+		chunk := d.rbuf[len(d.rbuf)-moved:]
+		obs := d.DeliveredObservers
+		reframe(&d.dbuf, chunk, func(f []byte) {
+			for _, o := range obs {
+				o(f)
+			}
+		})
+	}
 	d.broadcast()
 	return moved
 }
